@@ -126,11 +126,61 @@ def ack_ob(role, nops, prefix=()):
                     continue
                 handler, args = sent_acks.pop(sx.Choice("which%d" % j, len(sent_acks)))
                 handler(QuicDeliveryState.ACKED if sx.Bool("acked%d" % j) else QuicDeliveryState.LOST, *args)
+            if pending is not None:
+                # invariant: an ack-eliciting packet with the highest number that is still unacknowledged keeps a
+                # timer armed no later than the advertised delay
+                tt = conn.get_timer()
+                sx.check(tt is not None and tt <= pending[1] + 1e-9, "an unacknowledged ack-eliciting packet with the highest number has no timer within the advertised delay")
         # whatever happened, the next timer/transmit calls work
         t = conn.get_timer()
         fire = t is not None and t <= now + 1.0
         transmit(max(t, now) if fire else now, fire)
         sx.reached()
+
+    return prep, run
+
+
+def cc_ob(role):
+    """acknowledgements are not held back by an exhausted congestion window, whatever else is waiting"""
+    name = "c05_busy_%s" % role
+
+    def prep():
+        c05._quiet()
+        cm.prepare(name, c05.busy(role))
+
+    def run():
+        from aioquic import tls
+
+        c05._quiet()
+        p = cm.get(name, role) if sx.E.mode == "sym" else cm.Peer(*c05._replay_pair(role, "busy"))
+        conn = p.conn
+        space = conn._spaces[tls.Epoch.ONE_RTT]
+        sx.register_keys(range(0x40))
+        space.ack_queue = type(space.ack_queue)()
+        space.ack_at = None
+        conn._ack_delay = 0.025
+        cc = conn._loss._cc
+        slack = sx.Int("window_slack", 0, 120)
+        cc.bytes_in_flight = cc.congestion_window - slack
+        path = conn._network_paths[0]
+        if sx.Bool("challenge_to_answer"):
+            path.remote_challenges.append(bytes(8))
+        if sx.Bool("data_waiting"):
+            sid = 8 if role == "client" else 9
+            conn.send_stream_data(sid, bytes(200), end_stream=False)
+        if sx.Bool("ping_waiting"):
+            conn.send_ping(1)
+        if sx.Bool("retirement_waiting"):
+            conn._retire_connection_ids.append(0)
+        pn = space.expected_packet_number
+        p.deliver(tls.Epoch.ONE_RTT, b"\x01\x00\x00\x00", now=1.0, pn=pn)
+        t = conn.get_timer()
+        sx.check(t is not None and t <= 1.0 + conn._ack_delay + 1e-9, "no timer within the advertised acknowledgement delay")
+        with AckLog() as log:
+            conn.handle_timer(now=t)
+            conn.datagrams_to_send(now=t)
+        ok = any(any(a <= pn < b for a, b in ranges) for ranges, h, args in log.acks)
+        sx.check(ok, "the acknowledgement was held back although ACK frames are exempt from congestion control")
 
     return prep, run
 
@@ -147,4 +197,7 @@ def obligations(tier):
                 nn = n if (T or (o1, o2) != ("arrive", "arrive")) else 3
                 prep, run = ack_ob(role, nn, ("arrive", o1, o2))
                 obs.append(Ob("C12.ack.%s.arrive-%s-%s" % (role, o1, o2), run, cm.conn_shims, [Q + "receive_datagram", Q + "_write_ack_frame", Q + "_on_ack_delivery", Q + "_write_application", Q + "get_timer", Q + "handle_timer", "aioquic.quic.packet.push_ack_frame"], bounds="1-RTT space of a connected endpoint, operations arrive, %s, %s then %d more out of: arrival of a packet with any number within [expected-3, expected+6] (ack-eliciting or not, authentic or forged), timer firing when asked, transmit, ACKED/LOST of any earlier ACK-bearing packet" % (o1, o2, nn - 3), prepare=prep, budget_s=2400 if T else 280, max_decisions=1500, stubs=["CryptoPair -> transparent"]))
+    for role in ("client", "server"):
+        prep, run = cc_ob(role)
+        obs.append(Ob("C12.ack_vs_window.%s" % role, run, cm.conn_shims, [Q + "_write_application", Q + "_write_ack_frame", "aioquic.quic.packet_builder.QuicPacketBuilder.start_frame"], bounds="congestion window exhausted to within 0-120 bytes; any subset of {PATH_RESPONSE, stream data, PING, RETIRE_CONNECTION_ID} waiting; one ack-eliciting packet arrives and the timer fires when asked", prepare=prep, budget_s=280, max_decisions=900, stubs=["CryptoPair -> transparent"]))
     return obs
